@@ -35,6 +35,8 @@ noncomputable instance : FMin ℝ where
   fmin := min
   fmax := max
   fabs := abs
+  lowest := -(2 ^ 1024 : ℝ)
+  toI64 := fun x => rtrunc x
 
 @[simp] theorem sin_real (x : ℝ) : Transc.sin x = Real.sin x := rfl
 @[simp] theorem cos_real (x : ℝ) : Transc.cos x = Real.cos x := rfl
@@ -47,6 +49,8 @@ noncomputable instance : FMin ℝ where
 @[simp] theorem fmin_real (x y : ℝ) : FMin.fmin x y = min x y := rfl
 @[simp] theorem fmax_real (x y : ℝ) : FMin.fmax x y = max x y := rfl
 @[simp] theorem fabs_real (x : ℝ) : FMin.fabs x = |x| := rfl
+@[simp] theorem lowest_real : (FMin.lowest : ℝ) = -(2 ^ 1024 : ℝ) := rfl
+@[simp] theorem toI64_real (x : ℝ) : FMin.toI64 x = rtrunc x := rfl
 
 @[simp] theorem q_real (n d : Nat) : (q n d : ℝ) = (n : ℝ) / (d : ℝ) := rfl
 
